@@ -21,6 +21,11 @@ WORK = os.path.join(VERIF, "work")
 SPEC = os.path.join(VERIF, "spec")
 EVID = os.path.join(VERIF, "evidence")
 REPLAYS = os.path.join(VERIF, "replays")
+if REPO != "/repo":
+    # runs against another checkout (mutation testing) must not overwrite the evidence of /repo
+    _alt = os.path.join(WORK, "alt-" + hashlib.sha1(REPO.encode()).hexdigest()[:10])
+    EVID = os.path.join(_alt, "evidence")
+    REPLAYS = os.path.join(_alt, "replays")
 NCPU = int(os.environ.get("VERIF_JOBS", "0")) or min(16, os.cpu_count() or 4)
 
 JAVA_OPTS = "-Xss1g -Dtlc2.tool.queue.IStateQueue=StateDeque"
@@ -486,7 +491,7 @@ class Check:
                 if h in seen:
                     continue
                 seen.add(h)
-                path = os.path.join("replays", "%s-%s.json" % (self.prop, h))
+                path = os.path.relpath(os.path.join(REPLAYS, "%s-%s.json" % (self.prop, h)), VERIF)
                 with open(os.path.join(VERIF, path), "w") as f:
                     json.dump({"property": self.prop, "tier": self.tier, "seed": self.seed, "tag": v["tag"],
                                "event": v["event"]}, f, indent=1)
